@@ -758,6 +758,17 @@ func (c *compiler) evalCallExpression(node *ast.CallExpression) (interface{}, er
 			mname = i.Value
 		}
 
+		// like a field of a nil pointer (evalIdentifier), a method of nil yields nil instead of panicking in
+		// reflect; a pointer-receiver method of a typed nil pointer is still called, as in Go
+		if !rc.IsValid() {
+			return nil, nil
+		}
+		if rc.Kind() == reflect.Ptr && rc.IsNil() {
+			if _, ok := rc.Type().Elem().MethodByName(mname); ok {
+				return nil, nil
+			}
+		}
+
 		rv = rc.MethodByName(mname)
 		if !rv.IsValid() && rc.Type().Kind() != reflect.Ptr {
 			ptr := reflect.New(reflect.TypeOf(c))
